@@ -107,6 +107,9 @@ func TestVerifDriver(t *testing.T) {
 			res = ftOp(w[1:])
 		} else if len(w) >= 2 && w[0] == "px" {
 			res = pxOp(w[1:])
+		} else if len(w) == 2 && w[0] == "gs" {
+			ms, _ := strconv.Atoi(w[1])
+			res = gracefulScenario(ms)
 		} else if len(w) == 4 && w[0] == "wshold" {
 			hs, _ := strconv.Atoi(w[2])
 			hm, _ := strconv.Atoi(w[3])
@@ -542,4 +545,85 @@ func wsSession(chain, sizes string) string {
 		return "ws backend-not-closed"
 	}
 	return fmt.Sprintf("ws ok %d", n)
+}
+
+
+// gracefulScenario: `gs <stuck_ms>` — the process-level shutdown (shutdownGracefully with a 1 s
+// timeout) of a front end with active health checks, while one request stays in flight for
+// <stuck_ms> (0: none). Whether the drain finishes or runs into the timeout, the balancer must be
+// stopped: no probe reaches the backend afterwards.
+func gracefulScenario(stuckMs int) string {
+	var pmu sync.Mutex
+	var probeAt []time.Time
+	arrived := make(chan struct{}, 1)
+	be := httptest.NewServer(http.HandlerFunc(func(w http.ResponseWriter, r *http.Request) {
+		if r.URL.Path == "/health" {
+			pmu.Lock()
+			probeAt = append(probeAt, time.Now())
+			pmu.Unlock()
+			return
+		}
+		select {
+		case arrived <- struct{}{}:
+		default:
+		}
+		time.Sleep(time.Duration(stuckMs) * time.Millisecond)
+	}))
+	defer be.Close()
+	cfg := &config.Config{}
+	cfg.LoadBalancer.Strategy = "round_robin"
+	cfg.Backends = []config.BackendConfig{{Name: "b0", Address: be.URL}}
+	cfg.HealthChecks.Active = config.ActiveHealthCheckConfig{Enabled: true, Interval: 1, Timeout: 1, Path: "/health"}
+	l, err := loadbalancer.NewLoadBalancer(cfg)
+	if err != nil {
+		return "err"
+	}
+	h, err := buildHandler(cfg, l)
+	if err != nil {
+		l.Stop()
+		return "err"
+	}
+	srv := createHTTPServer(cfg, h)
+	ln, err := net.Listen("tcp", "127.0.0.1:0")
+	if err != nil {
+		l.Stop()
+		return "err:listen"
+	}
+	go func() { _ = srv.Serve(ln) }()
+	if stuckMs > 0 {
+		go func() {
+			c := &http.Client{Timeout: 10 * time.Second}
+			if resp, err := c.Get("http://" + ln.Addr().String() + "/slow"); err == nil {
+				resp.Body.Close()
+			}
+		}()
+		select {
+		case <-arrived:
+		case <-time.After(3 * time.Second):
+		}
+	}
+	t0 := time.Now()
+	fin := make(chan struct{})
+	go func() { shutdownGracefully(srv, l, time.Second); close(fin) }()
+	select {
+	case <-fin:
+	case <-time.After(15 * time.Second):
+		return "gs HUNG"
+	}
+	dt := time.Since(t0).Milliseconds()
+	ret := time.Now()
+	time.Sleep(2500 * time.Millisecond)
+	// a probe sent just before the balancer stopped may reach the backend's handler a little
+	// after (the prober has given up on it, the server has not noticed yet): only arrivals well
+	// after the return show a prober that is still running (it would send one every second)
+	after := 0
+	pmu.Lock()
+	for _, at := range probeAt {
+		if at.After(ret.Add(700 * time.Millisecond)) {
+			after++
+		}
+	}
+	pmu.Unlock()
+	l.Stop() // (a balancer that was left running must not outlive the scenario)
+	return fmt.Sprintf("gs returned probesAfter=%d || ms=%d", after, dt)
 }
